@@ -370,7 +370,7 @@ fn sweep(ctx: &Ctx, case: &ProgCase, challenges: &[Q], tally: &Mutex<Tally>, dum
     };
     let si = stack_inputs(&case.stack);
     let air = airx::make_air(&trace, &si);
-    let aux = trace.build_aux_segment::<Q>(&[], challenges).expect("aux");
+    let aux = trace.build_aux_segment::<Q>(&[], challenges).expect("SUBJECT: aux segment must be built");
     let mut rand = AuxTraceRandElements::<Q>::new();
     rand.add_segment_elements(challenges.to_vec());
     let main = trace.main_segment();
